@@ -5,14 +5,14 @@ import Proofs.Producer
 
 `DInv c d` is a predicate on *durable images* (`Chain.Store`).  This file proves
 * `dinv_empty`            : the empty disk satisfies it,
-* `start_of_dinv`         : `Producer.start` on an image satisfying it never fails, yields a node that
-                            satisfies the production invariant `Inv`, is in sync with its image, and differs
-                            from the image by the writes it reports (never below the committed height),
-* `start_prefix_dinv`     : every prefix image of the writes of `start` satisfies it again (crash during recovery),
+* `dinv_of_node`          : the image of a running node (at a step boundary) satisfies it,
+* `dinv_of_window`        : so does an image in which the new state is saved and the chain height is still one
+                            below it (the window between `updateState` and `setHeight` of a committing step),
 * `publish_shape`         : the durable writes of one production step are a list of *harmless* writes (batch
                             cursor, (re)save of the block waiting at `height + 1`), optionally followed by
-                            `setHeight (height+1)`, `updateState st'`,
-* `publish_prefix_dinv`   : every prefix image of a step satisfies `DInv`, except the cut right after `setHeight`.
+                            `updateState st'`, `setHeight (height+1)`,
+* `publish_prefix`        : **every** prefix image of a step satisfies `DInv`.
+(`Proofs/CrashStart.lean`: `Producer.start` on an image satisfying it never fails, … .)
 -/
 namespace Producer
 open Wire Chain
@@ -40,9 +40,10 @@ def WmOK (d : Store) : Prop := (∃ w, wmOf d hdrWmKey = some w) ∧ (∃ w, wmO
 theorem wmOf_congr {d d' : Store} (h : d'.kv = d.kv) (k : String) : wmOf d' k = wmOf d k := by
   simp [wmOf, Store.getMeta, h]
 
-/-- a write that does not touch the watermarks -/
-def NoWm : SW → Prop
-  | .setMeta k _ => k = lastBatchDataKey
+/-- a write after which the watermarks still parse: it is not a metadata write, or it writes the batch cursor, or
+it writes eight bytes (the node writes the watermark keys only at start-up, little-endian 64 bit) -/
+def WmSafe : SW → Prop
+  | .setMeta k v => k = lastBatchDataKey ∨ v.length = 8
   | _ => True
 
 theorem kv_apply_of_not_meta (d : Store) (w : SW) (h : ∀ k v, w ≠ .setMeta k v) : (d.apply w).kv = d.kv := by
@@ -52,24 +53,26 @@ theorem kv_apply_of_not_meta (d : Store) (w : SW) (h : ∀ k v, w ≠ .setMeta k
   | saveBlock h b => rfl
   | updateState s => rfl
 
-theorem wmOf_apply {d : Store} {w : SW} (hw : NoWm w) (k : String) (hk : k ≠ lastBatchDataKey) :
-    wmOf (d.apply w) k = wmOf d k := by
+theorem wmOf_apply {d : Store} {w : SW} (hw : WmSafe w) (k : String) (hk : k ≠ lastBatchDataKey)
+    (h : ∃ x, wmOf d k = some x) : ∃ x, wmOf (d.apply w) k = some x := by
   cases w with
   | setMeta k' v =>
-    have : k' = lastBatchDataKey := hw
-    subst this
-    have hne : ¬ lastBatchDataKey = k := fun h => hk h.symm
-    simp [wmOf, Store.getMeta, Store.apply, hne]
-  | setHeight h => exact wmOf_congr (kv_apply_of_not_meta d _ (by intro k v h; cases h)) k
-  | saveBlock h b => rfl
-  | updateState s => rfl
+    by_cases hkk : k' = k
+    · subst hkk
+      rcases hw with h1 | h1
+      · exact absurd h1 hk
+      · exact ⟨Bytes.unLe v, by simp [wmOf, Store.getMeta, Store.apply, h1]⟩
+    · have : wmOf (d.apply (.setMeta k' v)) k = wmOf d k := by
+        simp [wmOf, Store.getMeta, Store.apply, hkk]
+      rw [this]; exact h
+  | setHeight h' => rw [wmOf_congr (kv_apply_of_not_meta d _ (by intro k v h; cases h)) k]; exact h
+  | saveBlock h' b => exact h
+  | updateState s => exact h
 
-theorem wmOK_apply {d : Store} {w : SW} (hw : NoWm w) (h : WmOK d) : WmOK (d.apply w) := by
-  unfold WmOK
-  rw [wmOf_apply hw _ (by decide), wmOf_apply hw _ (by decide)]
-  exact h
+theorem wmOK_apply {d : Store} {w : SW} (hw : WmSafe w) (h : WmOK d) : WmOK (d.apply w) :=
+  ⟨wmOf_apply hw _ (by decide) h.1, wmOf_apply hw _ (by decide) h.2⟩
 
-theorem wmOK_applyAll {d : Store} {l : List SW} (hl : ∀ w ∈ l, NoWm w) (h : WmOK d) : WmOK (d.applyAll l) := by
+theorem wmOK_applyAll {d : Store} {l : List SW} (hl : ∀ w ∈ l, WmSafe w) (h : WmOK d) : WmOK (d.applyAll l) := by
   induction l generalizing d with
   | nil => exact h
   | cons w l ih =>
@@ -85,24 +88,56 @@ theorem Inv.congr {c : Cfg} {n n' : Node} (hi : Inv c n) (hs : n'.store = n.stor
   refine ⟨a1, ?_, ?_, ?_, ?_, ?_, ?_, ?_, ?_⟩
   all_goals (try rw [hs]); (try rw [hl]); assumption
 
+/-- the image with the recorded chain height raised to the height of the saved state `s` — the first thing
+`start` does (`block/manager.go:310-318`); the identity when the height is already there -/
+def raised (d : Store) (s : State) : Store := d.applyAll (setHeightW d s.lastHeight)
+
+theorem raised_facts (d : Store) (s : State) :
+    (raised d s).height = (if s.lastHeight > d.height then s.lastHeight else d.height) ∧
+    (∀ k, (raised d s).getBlock k = d.getBlock k) ∧ (raised d s).state = d.state ∧ (raised d s).kv = d.kv :=
+  applyAll_setHeightW d s.lastHeight
+
+theorem raised_level {d : Store} {s : State} (h : s.lastHeight ≤ d.height) : raised d s = d := by
+  have : ¬ s.lastHeight > d.height := by omega
+  simp [raised, setHeightW, this, Store.applyAll]
+
 /-- **Disk invariant**: what a durable image must satisfy for a restart to succeed and continue the chain.
 * the two submission watermarks parse;
 * no state saved yet: nothing is committed (`height < initialHeight`) and nothing is stored above the initial
   height (the restart re-saves the genesis block *at* the initial height);
-* a state is saved: it is not below the genesis, and recorded height, recorded state and stored blocks agree —
-  the image is that of a node satisfying the production invariant `Inv` (chain height = state height; a valid,
-  linked, signed chain up to it; state = result of the tip; at most a well-shaped block waiting at `height+1`). -/
+* a state `s` is saved: it is not below the genesis, the recorded chain height is the state's height **or one
+  below it** (the window between `updateState` and `setHeight` of a committing step), and with the chain height
+  raised to the state's height the image is that of a node satisfying the production invariant `Live` ⊇ `Inv`
+  (chain height = state height; a valid, linked, signed chain up to it — in the window this includes the block of
+  the state's height, stored and well-shaped —; state = result of the tip; at most a block waiting at `height+1`,
+  which will validate; nothing above). -/
 structure DInv (c : Cfg) (d : Store) : Prop where
   ihPos : 1 ≤ c.initialHeight
   wm : WmOK d
   noState : d.state = none → d.height < c.initialHeight ∧ ∀ h, h > c.initialHeight → d.getBlock h = none
-  withState : ∀ s, d.state = some s → c.initialHeight ≤ s.lastHeight ∧ Inv c { store := d, lastState := s }
+  withState : ∀ s, d.state = some s → c.initialHeight ≤ s.lastHeight ∧ s.lastHeight ≤ d.height + 1 ∧
+    Live c { store := raised d s, lastState := s }
 
 /-- (a) the empty disk -/
 theorem dinv_empty (c : Cfg) (hpos : 1 ≤ c.initialHeight) : DInv c {} := by
   refine ⟨hpos, ⟨⟨0, rfl⟩, ⟨0, rfl⟩⟩, ?_, ?_⟩
   · intro _; exact ⟨hpos, fun _ _ => rfl⟩
   · intro s hs; cases hs
+
+/-- the recorded height is never above the saved state's height -/
+theorem DInv.height_le {c : Cfg} {d : Store} (hd : DInv c d) {s : State} (hs : d.state = some s) :
+    d.height ≤ s.lastHeight := by
+  obtain ⟨_, _, hl⟩ := hd.withState s hs
+  have h1 : (raised d s).height = s.lastHeight := hl.hs
+  rw [(raised_facts d s).1] at h1
+  split at h1 <;> omega
+
+/-- the level case: chain height = state height; the image itself is that of a `Live` node -/
+theorem DInv.level {c : Cfg} {d : Store} (hd : DInv c d) {s : State} (hs : d.state = some s)
+    (hh : s.lastHeight = d.height) : Live c { store := d, lastState := s } := by
+  obtain ⟨_, _, hl⟩ := hd.withState s hs
+  rw [raised_level (by omega)] at hl
+  exact hl
 
 /-- the durable view of the node is in sync with its memory: the saved state is the node's last state (and is not
 below the genesis: `getInitialState` refuses such a state), or no state was saved yet and the node holds the
@@ -112,7 +147,7 @@ def Synced (c : Cfg) (n : Node) : Prop :=
   (n.store.state = none ∧ n.lastState = genesisState c)
 
 /-- the image of a node at a step boundary -/
-theorem dinv_of_node {c : Cfg} {n : Node} (hi : Inv c n) (hs : Synced c n) (hw : WmOK n.store) : DInv c n.store := by
+theorem dinv_of_node {c : Cfg} {n : Node} (hi : Live c n) (hs : Synced c n) (hw : WmOK n.store) : DInv c n.store := by
   refine ⟨hi.ihPos, hw, ?_, ?_⟩
   · intro hnone
     rcases hs with ⟨h1, _⟩ | ⟨_, h2⟩
@@ -127,8 +162,48 @@ theorem dinv_of_node {c : Cfg} {n : Node} (hi : Inv c n) (hs : Synced c n) (hw :
     · rw [hsome] at h1
       have : s = n.lastState := by simpa using h1
       subst this
-      exact ⟨h2, hi.congr rfl rfl⟩
+      have hh := hi.hs
+      refine ⟨h2, by omega, ?_⟩
+      rw [raised_level (by omega)]
+      exact hi.congr rfl rfl
     · rw [hsome] at h1; cases h1
+
+/-- **the window between `updateState` and `setHeight`**: a state is saved whose height is one above the recorded
+chain height, and raising the height gives the image of a `Live` node (so the block of that height is stored,
+linked and signed) -/
+theorem dinv_of_window {c : Cfg} {d : Store} {s : State} (hw : WmOK d) (hs : d.state = some s)
+    (hge : c.initialHeight ≤ s.lastHeight) (hh : s.lastHeight = d.height + 1)
+    (hl : Live c { store := d.apply (.setHeight s.lastHeight), lastState := s }) : DInv c d := by
+  refine ⟨hl.ihPos, hw, fun hn => (by rw [hn] at hs; cases hs), ?_⟩
+  intro s' hs'
+  rw [hs] at hs'
+  have : s = s' := by simpa using hs'
+  subst this
+  refine ⟨hge, by omega, ?_⟩
+  have : raised d s = d.apply (.setHeight s.lastHeight) := by
+    have hgt : s.lastHeight > d.height := by omega
+    simp [raised, setHeightW, hgt, Store.applyAll]
+  rw [this]; exact hl
+
+/-- a change of the image that keeps height, blocks and saved state (metadata only) keeps the disk invariant -/
+theorem dinv_of_same {c : Cfg} {d d' : Store} (hd : DInv c d) (hh : d'.height = d.height)
+    (hb : ∀ k, d'.getBlock k = d.getBlock k) (hs : d'.state = d.state) (hw : WmOK d') : DInv c d' := by
+  refine ⟨hd.ihPos, hw, ?_, ?_⟩
+  · intro hn
+    rw [hs] at hn
+    obtain ⟨a, b⟩ := hd.noState hn
+    exact ⟨by rw [hh]; exact a, fun h hgt => by rw [hb]; exact b h hgt⟩
+  · intro s hsome
+    rw [hs] at hsome
+    obtain ⟨a, b, hl⟩ := hd.withState s hsome
+    refine ⟨a, by rw [hh]; exact b, ?_⟩
+    obtain ⟨r1, r2, _, _⟩ := raised_facts d s
+    obtain ⟨r1', r2', _, _⟩ := raised_facts d' s
+    refine hl.of_same ?_ (fun k => ?_) rfl
+    · show (raised d' s).height = (raised d s).height
+      rw [r1, r1', hh]
+    · show (raised d' s).getBlock k = (raised d s).getBlock k
+      rw [r2, r2', hb]
 
 /-! ## harmless writes -/
 
@@ -140,58 +215,74 @@ theorem PendingOK.congr {c : Cfg} {d d' : Store} {b : Block} (h : PendingOK c d 
   obtain ⟨p, hp, r⟩ := h.link hgt
   exact ⟨p, by rw [hb]; exact hp, r⟩
 
-/-- a write that cannot hurt a restart: the batch cursor, or a (re)save of a well-shaped block at `height + 1` -/
-inductive Harmless (c : Cfg) (d : Store) : SW → Prop
-  | cursor (v : Bytes) : Harmless c d (.setMeta lastBatchDataKey v)
-  | pending (b : Block) (h : PendingOK c d b) : Harmless c d (.saveBlock (d.height + 1) b)
+/-- a write of a running node that cannot hurt a restart: the batch cursor, or a (re)save of a well-shaped block
+that will validate at `height + 1` -/
+inductive Harmless (c : Cfg) (n : Node) : SW → Prop
+  | cursor (v : Bytes) : Harmless c n (.setMeta lastBatchDataKey v)
+  | pending (b : Block) (h : PendingOK c n.store b) (hv : PendValid c n.lastState b) :
+      Harmless c n (.saveBlock (n.store.height + 1) b)
 
-theorem Harmless.noWm {c : Cfg} {d : Store} {w : SW} (hw : Harmless c d w) : NoWm w := by
-  cases hw <;> simp [NoWm]
+theorem Harmless.wmSafe {c : Cfg} {n : Node} {w : SW} (hw : Harmless c n w) : WmSafe w := by
+  cases hw <;> simp [WmSafe]
 
-theorem Harmless.facts {c : Cfg} {d : Store} {w : SW} (hw : Harmless c d w) :
-    (d.apply w).height = d.height ∧ (∀ k, k ≠ d.height + 1 → (d.apply w).getBlock k = d.getBlock k) ∧
-    (d.apply w).state = d.state := by
+theorem Harmless.facts {c : Cfg} {n : Node} {w : SW} (hw : Harmless c n w) :
+    (n.store.apply w).height = n.store.height ∧
+    (∀ k, k ≠ n.store.height + 1 → (n.store.apply w).getBlock k = n.store.getBlock k) ∧
+    (n.store.apply w).state = n.store.state := by
   cases hw with
   | cursor v => exact ⟨rfl, fun _ _ => rfl, rfl⟩
-  | pending b h => exact ⟨rfl, fun k hk => getBlock_saveBlock_other _ _ _ _ (Ne.symm hk), rfl⟩
+  | pending b h hv => exact ⟨rfl, fun k hk => getBlock_saveBlock_other _ _ _ _ (Ne.symm hk), rfl⟩
 
-theorem Harmless.mono {c : Cfg} {d : Store} {w w' : SW} (hw : Harmless c d w) (hw' : Harmless c d w') :
-    Harmless c (d.apply w) w' := by
+/-- the node with a different store -/
+def Node.withStore (n : Node) (s : Store) : Node := { n with store := s }
+
+@[simp] theorem Node.withStore_store (n : Node) (s : Store) : (n.withStore s).store = s := rfl
+@[simp] theorem Node.withStore_lastState (n : Node) (s : Store) : (n.withStore s).lastState = n.lastState := rfl
+
+theorem Harmless.mono {c : Cfg} {n : Node} {w w' : SW} (hw : Harmless c n w) (hw' : Harmless c n w') :
+    Harmless c (n.withStore (n.store.apply w)) w' := by
   obtain ⟨f1, f2, _⟩ := hw.facts
   cases hw' with
   | cursor v => exact .cursor v
-  | pending b h =>
-    rw [← f1]
-    exact .pending b (h.congr f1 (f2 _ (by omega)))
+  | pending b h hv =>
+    have : n.store.height + 1 = (n.withStore (n.store.apply w)).store.height + 1 := by
+      rw [Node.withStore_store, f1]
+    rw [this]
+    exact .pending b (h.congr f1 (f2 _ (by omega))) hv
 
-theorem harmless_dinv {c : Cfg} {d : Store} {w : SW} (hd : DInv c d) (hw : Harmless c d w) : DInv c (d.apply w) := by
-  obtain ⟨f1, f2, f3⟩ := hw.facts
-  refine ⟨hd.ihPos, wmOK_apply hw.noWm hd.wm, ?_, ?_⟩
-  · intro hnone
-    rw [f3] at hnone
-    obtain ⟨a, b⟩ := hd.noState hnone
-    refine ⟨by rw [f1]; exact a, fun h hgt => ?_⟩
-    rw [f2 h (by omega)]; exact b h hgt
-  · intro s hs
-    rw [f3] at hs
-    obtain ⟨a, hi⟩ := hd.withState s hs
-    refine ⟨a, ?_⟩
-    cases hw with
-    | cursor v => exact (inv_setMeta hi lastBatchDataKey v []).congr rfl rfl
-    | pending b h => exact (inv_early hi b.sh b.data h.height h.signer h.link b.savedSig).congr rfl rfl
+theorem harmless_live {c : Cfg} {n : Node} (hl : Live c n) {w : SW} (hw : Harmless c n w) :
+    Live c (n.withStore (n.store.apply w)) := by
+  cases hw with
+  | cursor v => exact (live_setMeta hl lastBatchDataKey v []).congr rfl rfl
+  | pending b h hv => exact (live_early hl b.sh b.data h.height h.signer h.link b.savedSig hv).congr rfl rfl
 
-theorem harmless_applyAll {c : Cfg} {d : Store} {l : List SW} (hd : DInv c d) (hl : ∀ w ∈ l, Harmless c d w) :
-    DInv c (d.applyAll l) ∧ (d.applyAll l).height = d.height ∧
-    (∀ k, k ≠ d.height + 1 → (d.applyAll l).getBlock k = d.getBlock k) ∧ (d.applyAll l).state = d.state := by
-  induction l generalizing d with
-  | nil => exact ⟨hd, rfl, fun _ _ => rfl, rfl⟩
+/-- harmless writes keep the node `Live` and change neither the height, nor the saved state, nor any block other
+than the one at `height + 1` -/
+theorem harmless_applyAll {c : Cfg} {n : Node} {l : List SW} (hl : Live c n) (hws : ∀ w ∈ l, Harmless c n w) :
+    Live c (n.withStore (n.store.applyAll l)) ∧ (n.store.applyAll l).height = n.store.height ∧
+    (∀ k, k ≠ n.store.height + 1 → (n.store.applyAll l).getBlock k = n.store.getBlock k) ∧
+    (n.store.applyAll l).state = n.store.state := by
+  induction l generalizing n with
+  | nil => exact ⟨hl.congr rfl rfl, rfl, fun _ _ => rfl, rfl⟩
   | cons w l ih =>
-    have hw := hl w (List.mem_cons_self ..)
+    have hw := hws w (List.mem_cons_self ..)
     obtain ⟨f1, f2, f3⟩ := hw.facts
-    obtain ⟨a, b, e, f⟩ := ih (harmless_dinv hd hw) (fun w' hw' => hw.mono (hl w' (List.mem_cons_of_mem _ hw')))
+    obtain ⟨a, b, e, f⟩ := ih (n := n.withStore (n.store.apply w)) (harmless_live hl hw)
+      (fun w' hw' => hw.mono (hws w' (List.mem_cons_of_mem _ hw')))
+    simp only [Node.withStore_store] at a b e f
     rw [applyAll_cons]
-    refine ⟨a, by rw [b, f1], fun k hk => ?_, by rw [f, f3]⟩
+    refine ⟨a.congr rfl rfl, by rw [b, f1], fun k hk => ?_, by rw [f, f3]⟩
     rw [e k (by rw [f1]; exact hk), f2 k hk]
+
+/-- … hence the image after them satisfies the disk invariant -/
+theorem harmless_dinv {c : Cfg} {n : Node} {l : List SW} (hl : Live c n) (hs : Synced c n) (hw : WmOK n.store)
+    (hws : ∀ w ∈ l, Harmless c n w) : DInv c (n.store.applyAll l) := by
+  obtain ⟨a, _, _, f⟩ := harmless_applyAll hl hws
+  have hs' : Synced c (n.withStore (n.store.applyAll l)) := by
+    unfold Synced
+    simp only [Node.withStore_store, Node.withStore_lastState, f]
+    exact hs
+  exact dinv_of_node a hs' (wmOK_applyAll (fun w hw' => (hws w hw').wmSafe) hw)
 
 /-! ## shape of the durable writes of one production step -/
 
@@ -203,13 +294,13 @@ theorem finish_ws (c : Cfg) (n : Node) (ws0 : List SW) (sh : SHeader) (d : Data)
   | fail => simp
   | ok => simp only; split <;> simp
 
-/-- the tail of a committing step -/
-def commitTail (h : Nat) (st' : State) : List SW := [.setHeight (h + 1), .updateState st']
+/-- the tail of a committing step: **the new state first, then the chain height** -/
+def commitTail (h : Nat) (st' : State) : List SW := [.updateState st', .setHeight (h + 1)]
 
-/-- the writes of a step are harmless writes `pre`, and, iff the step commits, `setHeight (height+1)` and
-`updateState st'` after them; the node's store is its old store with exactly these writes applied -/
+/-- the writes of a step are harmless writes `pre`, and, iff the step commits, `updateState st'` and
+`setHeight (height+1)` after them; the node's store is its old store with exactly these writes applied -/
 def Shape (c : Cfg) (n : Node) (p : Node × List SW × Outcome) : Prop :=
-  ∃ pre, (∀ w ∈ pre, Harmless c n.store w) ∧
+  ∃ pre, (∀ w ∈ pre, Harmless c n w) ∧
     ((p.2.1 = pre ∧ p.1.store = n.store.applyAll pre ∧ p.1.lastState = n.lastState ∧ p.2.2 ≠ .ok) ∨
      (∃ st', st'.lastHeight = n.store.height + 1 ∧ p.2.1 = pre ++ commitTail n.store.height st' ∧
         p.1.store = n.store.applyAll (pre ++ commitTail n.store.height st') ∧ p.1.lastState = st' ∧ p.2.2 = .ok))
@@ -217,16 +308,17 @@ def Shape (c : Cfg) (n : Node) (p : Node × List SW × Outcome) : Prop :=
 theorem shape_idle (c : Cfg) (n : Node) (o : Outcome) (ho : o ≠ .ok) : Shape c n (n, [], o) :=
   ⟨[], by simp, Or.inl ⟨rfl, rfl, rfl, ho⟩⟩
 
-theorem finish_shape {c : Cfg} {n : Node} (hi : Inv c n) {pb : Block}
+theorem finish_shape {c : Cfg} {n : Node} (hi : Live c n) {pb : Block}
     (hpb : n.store.getBlock (n.store.height + 1) = some pb) (ldh : Bytes) (ex : ExecResp) :
     ((finish c n [] pb.sh pb.data ldh ex).1 = n ∧ (finish c n [] pb.sh pb.data ldh ex).2.1 = [] ∧
       (finish c n [] pb.sh pb.data ldh ex).2.2 ≠ .ok) ∨
-    (∃ fb st', PendingOK c n.store fb ∧ st'.lastHeight = n.store.height + 1 ∧
+    (∃ fb st', PendingOK c n.store fb ∧ PendValid c n.lastState fb ∧ st'.lastHeight = n.store.height + 1 ∧
       (finish c n [] pb.sh pb.data ldh ex).2.1 = .saveBlock (n.store.height + 1) fb :: commitTail n.store.height st' ∧
       (finish c n [] pb.sh pb.data ldh ex).1.store =
         n.store.applyAll (.saveBlock (n.store.height + 1) fb :: commitTail n.store.height st') ∧
       (finish c n [] pb.sh pb.data ldh ex).1.lastState = st' ∧ (finish c n [] pb.sh pb.data ldh ex).2.2 = .ok) := by
   have hpo := hi.pend pb hpb
+  have hpv := hi.pendValid pb hpb
   unfold finish
   cases ex with
   | fail => exact Or.inl ⟨rfl, rfl, by simp⟩
@@ -235,33 +327,35 @@ theorem finish_shape {c : Cfg} {n : Node} (hi : Inv c n) {pb : Block}
     split
     · exact Or.inl ⟨rfl, rfl, by simp⟩
     · rename_i hv
-      obtain ⟨_, _, _, _, _, _, hht, _, _⟩ := execValidate_none hv
       have hH : pb.sh.hdr.height = n.store.height + 1 := hpo.height
       refine Or.inr ⟨Block.mk (signed c pb.sh) (withMeta pb.data pb.sh.hdr ldh) (signed c pb.sh).sig,
         { nextState n.lastState pb.sh.hdr (execRoot n.lastState.appHash pb.data.txs) with daHeight := n.daHeight },
-        ⟨hpo.height, hpo.signer, hpo.link⟩, ?_, ?_, ?_, rfl, rfl⟩
+        ⟨hpo.height, hpo.signer, hpo.link⟩, ⟨hpv.chainId, hpv.appHash, hpv.proposer, hpv.dataHash, hpv.time⟩,
+        ?_, ?_, ?_, rfl, rfl⟩
       · simp [nextState, hH]
       · simp [signed, hH, setHeightW, commitTail]
       · simp [signed, hH, setHeightW, commitTail, Store.applyAll]
 
-theorem buildAndFinish_shape {c : Cfg} {n n0 : Node} (v : Bytes) (h0 : Inv c n0)
+theorem buildAndFinish_shape {c : Cfg} {n n0 : Node} (v : Bytes) (h0 : Live c n0)
     (e1 : n0.store = n.store.apply (.setMeta lastBatchDataKey v)) (e2 : n0.lastState = n.lastState)
     (ls : Sig) (lhh ldh : Bytes)
     (hl : n.store.height + 1 > c.initialHeight → ∃ p, n.store.getBlock n.store.height = some p ∧ lhh = p.sh.hdr.hash)
-    (txs : List Bytes) (ts : Nat) (ex : ExecResp) :
+    (txs : List Bytes) (ts : Nat) (hts : n.store.height + 1 > 1 → n.lastState.lastTime ≤ ts) (ex : ExecResp) :
     Shape c n (buildAndFinish c n0 (.setMeta lastBatchDataKey v) ls lhh ldh txs ts ex) := by
   unfold buildAndFinish
   simp only
   have e3 : n0.store.height = n.store.height := by rw [e1]; rfl
   obtain ⟨f1, f2, f3, _⟩ := createBlock_facts c n0.lastState (n0.store.height + 1) ls lhh txs ts
-  generalize createBlock c n0.lastState (n0.store.height + 1) ls lhh txs ts = blk at f1 f2 f3 ⊢
+  have fv := createBlock_pendValid (c := c) (st := n0.lastState) h0.cid (n0.store.height + 1) ls lhh txs ts
+    (by rw [e3, e2]; exact hts) .none
+  generalize createBlock c n0.lastState (n0.store.height + 1) ls lhh txs ts = blk at f1 f2 f3 fv ⊢
   have hl0 : n0.store.height + 1 > c.initialHeight → ∃ p, n0.store.getBlock n0.store.height = some p ∧
       blk.1.hdr.lastHeaderHash = p.sh.hdr.hash := by
     intro hgt
     rw [e3] at hgt
     obtain ⟨p, hp, hq⟩ := hl hgt
     exact ⟨p, by rw [e3, e1]; exact hp, by rw [f3]; exact hq⟩
-  have h1 := inv_early h0 blk.1 blk.2 f1 f2 hl0 .none
+  have h1 := live_early h0 blk.1 blk.2 f1 f2 hl0 .none fv
   generalize hn1 : ({ n0 with store := n0.store.apply (.saveBlock (n0.store.height + 1) (Block.mk blk.1 blk.2 .none)) } : Node) = n1 at h1 ⊢
   have g1 : n1.store = n0.store.apply (.saveBlock (n0.store.height + 1) (Block.mk blk.1 blk.2 .none)) := by rw [← hn1]
   have g2 : n1.lastState = n.lastState := by rw [← hn1]; exact e2
@@ -269,21 +363,21 @@ theorem buildAndFinish_shape {c : Cfg} {n n0 : Node} (v : Bytes) (h0 : Inv c n0)
   have hpb : n1.store.getBlock (n1.store.height + 1) = some (Block.mk blk.1 blk.2 .none) := by
     rw [g3, g1, e3]; simp
   -- the two harmless writes before `finish`
-  have hw0 : Harmless c n.store (.setMeta lastBatchDataKey v) := .cursor v
+  have hw0 : Harmless c n (.setMeta lastBatchDataKey v) := .cursor v
   have hpe : PendingOK c n.store (Block.mk blk.1 blk.2 .none) := by
     refine ⟨by rw [← e3]; exact f1, f2, ?_⟩
     intro hgt
     obtain ⟨p, hp, hq⟩ := hl hgt
     exact ⟨p, hp, by show blk.1.hdr.lastHeaderHash = _; rw [f3]; exact hq⟩
-  have hw1 : Harmless c n.store (.saveBlock (n0.store.height + 1) (Block.mk blk.1 blk.2 .none)) := by
-    rw [e3]; exact .pending _ hpe
+  have hw1 : Harmless c n (.saveBlock (n0.store.height + 1) (Block.mk blk.1 blk.2 .none)) := by
+    rw [e3]; exact .pending _ hpe (by rw [← e2]; exact fv)
   have hst1 : n1.store = n.store.applyAll [.setMeta lastBatchDataKey v, .saveBlock (n0.store.height + 1) (Block.mk blk.1 blk.2 .none)] := by
     rw [g1, e1]; rfl
   have hget : n1.store.getBlock n.store.height = n.store.getBlock n.store.height := by
     rw [g1, e1]
     rw [getBlock_saveBlock_other _ _ _ _ (by show n.store.height + 1 ≠ n.store.height; omega)]; rfl
   rw [finish_ws]
-  rcases finish_shape h1 (pb := Block.mk blk.1 blk.2 .none) hpb ldh ex with ⟨a1, a2, a3⟩ | ⟨fb, st', b1, b2, b3, b4, b5, b6⟩
+  rcases finish_shape h1 (pb := Block.mk blk.1 blk.2 .none) hpb ldh ex with ⟨a1, a2, a3⟩ | ⟨fb, st', b1, bv, b2, b3, b4, b5, b6⟩
   · refine ⟨[.setMeta lastBatchDataKey v, .saveBlock (n0.store.height + 1) (Block.mk blk.1 blk.2 .none)], ?_, Or.inl ⟨?_, ?_, ?_, a3⟩⟩
     · intro w hw
       simp only [List.mem_cons, List.mem_nil_iff, or_false] at hw
@@ -301,13 +395,13 @@ theorem buildAndFinish_shape {c : Cfg} {n n0 : Node} (v : Bytes) (h0 : Inv c n0)
       rcases hw with rfl | rfl | rfl
       · exact hw0
       · exact hw1
-      · exact .pending fb (b1.congr g3.symm (by rw [g3]; exact hget.symm))
+      · exact .pending fb (b1.congr g3.symm (by rw [g3]; exact hget.symm)) (by rw [← g2]; exact bv)
     · simp only [b3]; simp
     · simp only [b4, hst1]
       rw [← applyAll_append]; simp
 
-/-- **the durable writes of every production step have the shape `harmless* (setHeight updateState)?`** -/
-theorem publish_shape {c : Cfg} {n : Node} (hi : Inv c n) (resp : SeqResp) (ex : ExecResp) :
+/-- **the durable writes of every production step have the shape `harmless* (updateState setHeight)?`** -/
+theorem publish_shape {c : Cfg} {n : Node} (hi : Live c n) (resp : SeqResp) (ex : ExecResp) :
     Shape c n (publish c n resp ex) := by
   unfold publish
   split
@@ -317,14 +411,16 @@ theorem publish_shape {c : Cfg} {n : Node} (hi : Inv c n) (resp : SeqResp) (ex :
     · rename_i ls lhh ldh lht hprev
       split
       · rename_i pb hpb
-        rcases finish_shape hi hpb ldh ex with ⟨a1, a2, a3⟩ | ⟨fb, st', b1, b2, b3, b4, b5, b6⟩
+        rcases finish_shape hi hpb ldh ex with ⟨a1, a2, a3⟩ | ⟨fb, st', b1, bv, b2, b3, b4, b5, b6⟩
         · exact ⟨[], by simp, Or.inl ⟨a2, by rw [a1]; rfl, by rw [a1], a3⟩⟩
         · refine ⟨[.saveBlock (n.store.height + 1) fb], ?_, Or.inr ⟨st', b2, b3, b4, b5, b6⟩⟩
           intro w hw
           simp only [List.mem_cons, List.mem_nil_iff, or_false] at hw
           subst hw
-          exact .pending fb b1
-      · unfold fresh
+          exact .pending fb b1 bv
+      · rename_i hnone
+        obtain ⟨_, htime⟩ := fresh_branch hi hnone hprev
+        unfold fresh
         cases resp with
         | err => exact shape_idle c n _ (by simp)
         | absent => exact shape_idle c n _ (by simp)
@@ -342,19 +438,13 @@ theorem publish_shape {c : Cfg} {n : Node} (hi : Inv c n) (resp : SeqResp) (ex :
               exact .cursor _
           split
           · exact hcur.1
-          · split
+          · rename_i hreg
+            split
             · exact hcur.2
-            · exact buildAndFinish_shape _ (inv_setMeta hi lastBatchDataKey _ bd) rfl rfl ls lhh ldh (prevInfo_link hprev) txs ts ex
+            · exact buildAndFinish_shape _ (live_setMeta hi lastBatchDataKey _ bd) rfl rfl ls lhh ldh (prevInfo_link hprev)
+                txs ts (fun _ => htime ts (by simpa using hreg)) ex
 
 /-! ## crash points of a step -/
-
-def isSetHeight : SW → Bool
-  | .setHeight _ => true
-  | _ => false
-
-/-- **the bad cut**: the crash falls right after a `setHeight` write and that write is not the last one of the
-list (i.e. after `SetHeight`, before `UpdateState`) -/
-def badCut (k : Nat) (ws : List SW) : Bool := decide (k < ws.length) && (ws.take k).getLast?.any isSetHeight
 
 /-- how a later durable image relates to an earlier one: the chain height does not decrease, rises by at most one
 (above the genesis), and no block at or below the earlier chain height differs -/
@@ -371,76 +461,86 @@ theorem commitTail_take (d1 : Store) (h : Nat) (st' : State) (hh : d1.height = h
   subst hh
   match j with
   | 0 => simp [Store.applyAll]
-  | 1 => simp [commitTail, Store.applyAll, height_setHeight]
+  | 1 => simp [commitTail, Store.applyAll]
   | j+2 => simp [commitTail, Store.applyAll, height_setHeight]
 
 theorem commitTail_state (d1 : Store) (h : Nat) (st' : State) :
     (d1.applyAll (commitTail h st')).state = some st' := by
   simp [commitTail, Store.applyAll]
 
-theorem commitTail_noWm (h : Nat) (st' : State) : ∀ w ∈ commitTail h st', NoWm w := by
+theorem commitTail_wmSafe (h : Nat) (st' : State) : ∀ w ∈ commitTail h st', WmSafe w := by
   intro w hw
   simp only [commitTail, List.mem_cons, List.mem_nil_iff, or_false] at hw
-  rcases hw with rfl | rfl <;> simp [NoWm]
+  rcases hw with rfl | rfl <;> simp [WmSafe]
 
 /-- a step keeps the node in sync with its durable image, and its store is the old store with exactly the
 reported writes applied -/
-theorem publish_synced {c : Cfg} {n : Node} (hi : Inv c n) (hs : Synced c n) (hw : WmOK n.store)
+theorem publish_synced {c : Cfg} {n : Node} (hi : Live c n) (hs : Synced c n) (hw : WmOK n.store)
     (r : SeqResp) (e : ExecResp) :
     Synced c (publish c n r e).1 ∧ WmOK (publish c n r e).1.store ∧
     (publish c n r e).1.store = n.store.applyAll (publish c n r e).2.1 := by
   obtain ⟨pre, hpre, hsh⟩ := publish_shape hi r e
-  have hd := dinv_of_node hi hs hw
-  obtain ⟨_, _, _, a4⟩ := harmless_applyAll hd hpre
+  obtain ⟨_, _, _, a4⟩ := harmless_applyAll hi hpre
   rcases hsh with ⟨b1, b2, b3, _⟩ | ⟨st', b1, b2, b3, b4, _⟩
   · refine ⟨?_, ?_, by rw [b2, b1]⟩
     · unfold Synced
       rw [b2, b3, a4]; exact hs
-    · rw [b2]; exact wmOK_applyAll (fun w hw' => (hpre w hw').noWm) hw
+    · rw [b2]; exact wmOK_applyAll (fun w hw' => (hpre w hw').wmSafe) hw
   · refine ⟨Or.inl ⟨?_, ?_⟩, ?_, by rw [b3, b2]⟩
     · rw [b3, b4, applyAll_append, commitTail_state]
     · rw [b4, b1]; exact hi.low
     · rw [b3]
       refine wmOK_applyAll (fun w hw' => ?_) hw
       rcases List.mem_append.mp hw' with h | h
-      · exact (hpre w h).noWm
-      · exact commitTail_noWm _ _ w h
+      · exact (hpre w h).wmSafe
+      · exact commitTail_wmSafe _ _ w h
 
-/-- **(c) every crash point of every step, except the bad cut, leaves an image satisfying the disk invariant**;
-and every crash point (the bad cut included) leaves the committed blocks alone and raises the height by ≤ 1 -/
-theorem publish_prefix {c : Cfg} {n : Node} (hi : Inv c n) (hs : Synced c n) (hw : WmOK n.store)
+/-- **(c) every crash point of every step leaves an image satisfying the disk invariant**, leaves the committed
+blocks alone and raises the height by ≤ 1 -/
+theorem publish_prefix {c : Cfg} {n : Node} (hi : Live c n) (hs : Synced c n) (hw : WmOK n.store)
     (r : SeqResp) (e : ExecResp) (k : Nat) :
     Adv c n.store (n.store.applyPrefix k (publish c n r e).2.1) ∧
-    (badCut k (publish c n r e).2.1 = false → DInv c (n.store.applyPrefix k (publish c n r e).2.1)) := by
+    DInv c (n.store.applyPrefix k (publish c n r e).2.1) := by
   obtain ⟨hsy, hwm', hstore⟩ := publish_synced hi hs hw r e
-  have hinv' := publish_inv hi r e
+  have hlive' := publish_live hi r e
   obtain ⟨pre, hpre, hsh⟩ := publish_shape hi r e
-  have hd := dinv_of_node hi hs hw
-  have htk : ∀ w ∈ pre.take k, Harmless c n.store w := fun w hw' => hpre w (List.mem_of_mem_take hw')
-  obtain ⟨a1, a2, a3, _⟩ := harmless_applyAll hd htk
-  rcases hsh with ⟨b1, _, _, _⟩ | ⟨st', _, b2, b3, _, _⟩
+  have htk : ∀ w ∈ pre.take k, Harmless c n w := fun w hw' => hpre w (List.mem_of_mem_take hw')
+  obtain ⟨_, a2, a3, a4⟩ := harmless_applyAll hi htk
+  have a1 := harmless_dinv hi hs hw htk
+  rcases hsh with ⟨b1, _, _, _⟩ | ⟨st', bh, b2, b3, b4, _⟩
   · rw [b1]
     unfold Store.applyPrefix
-    exact ⟨⟨by omega, by omega, fun h hh => a3 h (by omega)⟩, fun _ => a1⟩
+    exact ⟨⟨by omega, by omega, fun h hh => a3 h (by omega)⟩, a1⟩
   · rw [b2]
     unfold Store.applyPrefix
     rw [List.take_append, applyAll_append]
     obtain ⟨t1, t2, t3⟩ := commitTail_take (n.store.applyAll (pre.take k)) n.store.height st' a2 (k - pre.length)
-    refine ⟨⟨by omega, by omega, fun h hh => by rw [t3, a3 h (by omega)]⟩, fun hbad => ?_⟩
+    refine ⟨⟨by omega, by omega, fun h hh => by rw [t3, a3 h (by omega)]⟩, ?_⟩
     by_cases h1 : k ≤ pre.length
     · have : k - pre.length = 0 := by omega
       rw [this]; exact a1
-    · by_cases h2 : k = pre.length + 1
-      · exfalso
-        subst h2
-        have : badCut (pre.length + 1) (pre ++ commitTail n.store.height st') = true := by
-          simp [badCut, commitTail, List.take_append, isSetHeight]
-        rw [this] at hbad; cases hbad
+    · have e1 : pre.take k = pre := List.take_of_length_le (by omega)
+      rw [e1] at a2 a4 ⊢
+      by_cases h2 : k = pre.length + 1
+      · -- the window: the new state is saved, the chain height is not yet raised
+        have e2 : (commitTail n.store.height st').take (k - pre.length) = [.updateState st'] := by
+          have : k - pre.length = 1 := by omega
+          rw [this]; rfl
+        rw [e2]
+        have himg : (n.store.applyAll pre).applyAll [.updateState st'] = (n.store.applyAll pre).apply (.updateState st') := rfl
+        rw [himg]
+        have hpost : (publish c n r e).1.store =
+            ((n.store.applyAll pre).apply (.updateState st')).apply (.setHeight st'.lastHeight) := by
+          rw [b3, applyAll_append, bh]; rfl
+        refine dinv_of_window (s := st') ?_ rfl ?_ ?_ ?_
+        · exact wmOK_apply (by simp [WmSafe]) (wmOK_applyAll (fun w hw' => (hpre w hw').wmSafe) hw)
+        · rw [bh]; exact hi.low
+        · rw [bh]; show _ = (n.store.applyAll pre).height + 1; rw [a2]
+        · exact hlive'.congr hpost.symm b4.symm
       · have hk : (pre ++ commitTail n.store.height st').length ≤ k := by simp [commitTail]; omega
-        have e1 : pre.take k = pre := List.take_of_length_le (by omega)
         have e2 : (commitTail n.store.height st').take (k - pre.length) = commitTail n.store.height st' :=
           List.take_of_length_le (by simp [commitTail]; omega)
-        rw [e1, e2, ← applyAll_append, ← b3]
-        exact dinv_of_node hinv' hsy hwm'
+        rw [e2, ← applyAll_append, ← b3]
+        exact dinv_of_node hlive' hsy hwm'
 
 end Producer
